@@ -241,12 +241,10 @@ def u32delOne (st : Store) (p : Key × List Nat) : Store × Bool :=
   match AL.find p.1 st with
   | none => (st, false)
   | some r =>
-    match r.val with
-    | .u32s l =>
-      let l' := delU32 l p.2
-      if l'.isEmpty then (AL.erase p.1 st, false)
-      else (AL.insert p.1 { r with val := .u32s l' } st, false)
-    | _ => (st, true)
+    if r.val.isSlice then
+      if (delU32 r.val.sliceD p.2).isEmpty then (AL.erase p.1 st, false)
+      else (AL.insert p.1 { r with val := .u32s (delU32 r.val.sliceD p.2) } st, false)
+    else (st, true)
 
 def foldPairs (f : Store → Key × List Nat → Store × Bool) : Store → List (Key × List Nat) → Store × Bool
   | st, [] => (st, false)
@@ -688,6 +686,19 @@ def DelOut.tags : DelOut → List Tag
   | .destroyed tg => tg
   | .hang tg => tg
 
+/-- the tail of one pair of `Uint32SliceDelete`, after `Save`: when the slice is empty (or the
+    record is not a slice) the handler calls `DeleteTreasure` -/
+def u32delFinish (cfg : Cfg) (kind : Kind) (k : Key) (isSlice : Bool) (sv : Inst × St × List Tag)
+    (tgH : List Tag) (empty : Bool) : DelOut :=
+  if empty then
+    let tgN : List Tag := if isSlice then [] else [Tag.u32delNonSlice]
+    -- the guard is still held unless Save let go of it (write interval 0, save not "same")
+    let released := cfg.u32delReleases || (cfg.saveReleasesImmediate && kind == .p0 && sv.2.1 != .same)
+    if !released then .hang (tgH ++ sv.2.2 ++ tgN ++ [Tag.u32delDeadlock])
+    else if (deleteRec sv.1 k).recs.isEmpty then .destroyed (tgH ++ sv.2.2 ++ tgN)
+    else .cont (deleteRec sv.1 k) false (tgH ++ sv.2.2 ++ tgN)
+  else .cont sv.1 false (tgH ++ sv.2.2)
+
 def u32delOne (cfg : Cfg) (kind : Kind) (i : Inst) (p : Key × List Nat) : DelOut :=
   match AL.find p.1 i.recs with
   | none => .cont i false []
@@ -698,17 +709,7 @@ def u32delOne (cfg : Cfg) (kind : Kind) (i : Inst) (p : Key × List Nat) : DelOu
       let sr := delRaw t.c p.2
       let tgH : List Tag := if isSlice && !t.c.vis.isSlice then [Tag.hiddenSlice] else []
       let t' : MRec := { t with c := sr.c, changed := t.changed || sr.changed }
-      let i1 := (save cfg i p.1 t' sr.changed).1
-      let st := (save cfg i p.1 t' sr.changed).2.1
-      let tg1 := (save cfg i p.1 t' sr.changed).2.2
-      if (sr.c.slice.getD []).isEmpty then
-        let tgN : List Tag := if isSlice then [] else [Tag.u32delNonSlice]
-        -- the guard is still held unless Save let go of it (write interval 0, save not "same")
-        let released := cfg.u32delReleases || (cfg.saveReleasesImmediate && kind == .p0 && st != .same)
-        if !released then .hang (tgH ++ tg1 ++ tgN ++ [Tag.u32delDeadlock])
-        else if (deleteRec i1 p.1).recs.isEmpty then .destroyed (tgH ++ tg1 ++ tgN)
-        else .cont (deleteRec i1 p.1) false (tgH ++ tg1 ++ tgN)
-      else .cont i1 false (tgH ++ tg1)
+      u32delFinish cfg kind p.1 isSlice (save cfg i p.1 t' sr.changed) tgH (sr.c.slice.getD []).isEmpty
 
 /-- result: final instance (none = destroyed), error flag, hang flag, tags -/
 def u32delLoop (cfg : Cfg) (kind : Kind) : Inst → List (Key × List Nat) → Option Inst × Bool × Bool × List Tag
